@@ -9,7 +9,8 @@
 
 #include "Channel.h"
 
-ezc3d::DataNS::AnalogsNS::Channel::Channel(const std::string &name)
+ezc3d::DataNS::AnalogsNS::Channel::Channel(const std::string &name) :
+    _data(0)
 {
     // Through the setter, so the name is stored without its trailing spaces, as when it is given later
     this->name(name);
